@@ -278,7 +278,9 @@ EXTRA = {'C01': 'Each configuration additionally runs with failing appenders (no
         'calls with one item. A second instance (MC_Routing_long) has a ten-character name of one component next to '
         'names of two and three components, with targets up to three components below them. A second pass over every '
         'third configuration logs level by level with every target copied into one reused buffer (routing is by the '
-        'text of the target, not by where it lives or what the previous call was turned away for).',
+        'text of the target, not by where it lives or what the previous call was turned away for). A further scale '
+        'configuration declares 2^18 + 1 sibling loggers, each with a level of its own, and probes every one of '
+        'them.',
  'C02': ' Every other record goes the way the macro goes but carries the name of a configured logger as module path '
         "and file. The configuration pool spells names with '-' and '_' (distinct loggers, both spellings as "
         'targets). Every other reconfiguration of a history lands inside a log call of the same thread (at the '
@@ -304,7 +306,8 @@ EXTRA = {'C01': 'Each configuration additionally runs with failing appenders (no
         'control) is model-checked, and the files that real appenders leave behind must each be reachable in it '
         '(Trace_SharedFile.tla). A durability scenario under a file size limit: 2 KB messages (once a literal '
         'without format arguments) through the stock pattern encoder - an acknowledged record is in the file in '
-        'full.',
+        'full. The size-limit scenario runs in the mode of the run (append / truncate) and looks at the file right '
+        'after the refused record as well as after the drop.',
  'C05': 'The replay materialises every behaviour five times: 10-byte units with DeleteRoller, 400-byte units with a '
         'two-chunk encoder (straddling the 1 KiB BufWriter), 16-byte units with gzip archives and an appender built '
         'from a configuration value, 12-byte units with the index in a directory component of the archive pattern, '
@@ -320,7 +323,8 @@ EXTRA = {'C01': 'Each configuration additionally runs with failing appenders (no
         'restarts, obstacles, encoder failures, overlaps) are sampled with TLC -simulate. An eighth materialisation '
         'archives 40 000-byte units of text that does not compress through gzip. An instance with a one-slot gzip '
         'window whose newest archive name takes no byte (Obstruct kind full): the rotation reports the failure and '
-        'no record is lost.',
+        'no record is lost. In the background_rotation build, histories with a directory in the way of an archive '
+        'run with one statement: the newest acknowledged record is in a file.',
  'C06': 'The replay materialises every behaviour five times: 10-byte units with DeleteRoller, 400-byte units with a '
         'two-chunk encoder (straddling the 1 KiB BufWriter), 16-byte units with gzip archives and an appender built '
         'from a configuration value, 12-byte units with the index in a directory component of the archive pattern, '
@@ -339,7 +343,8 @@ EXTRA = {'C01': 'Each configuration additionally runs with failing appenders (no
         'name; windows straddle 2^8 and 2^16. Wipe: the archive directory is removed with everything in it between '
         'two rolls. A ninth template has a $ENV reference in the last component whose value brings directories '
         "along. Bystanders include neighbours of the newest archive's name (.tmp, ~, .part). A second roller "
-        'instance for the same pattern takes every third roll.',
+        'instance for the same pattern takes every third roll. Six runs in a process of their own build the roller '
+        'in one directory, change the working directory and roll three times (relative patterns).',
  'C08': 'The replay materialises every behaviour five times: 10-byte units with DeleteRoller, 400-byte units with a '
         'two-chunk encoder (straddling the 1 KiB BufWriter), 16-byte units with gzip archives and an appender built '
         'from a configuration value, 12-byte units with the index in a directory component of the archive pattern, '
@@ -358,7 +363,8 @@ EXTRA = {'C01': 'Each configuration additionally runs with failing appenders (no
         'is environment state, too (Fork): histories continued in forked children for {P} / {pid}. Sinks accept '
         'prefixes and interrupt calls. The grammar has a literal percent sign in front of text that looks like a '
         'specifier ({d(%%#z)}). Every other pattern is encoded with a message whose Display logs through the same '
-        'encoder into another sink.',
+        'encoder into another sink. FieldWidths.tla sweeps every minimum width from 13 to 140 on both sides of the '
+        'level field (PadSweep).',
  'C10': 'Every length class is instantiated by code points at the edges of its UTF-8 range (first / last lead byte, '
         'first / last continuation byte); fill characters of 1, 2 and 3 bytes; every third case builds the encoder '
         'from a configuration value. Every third case has multi-byte literal text in front of the spec; an earlier '
@@ -366,19 +372,23 @@ EXTRA = {'C01': 'Each configuration additionally runs with failing appenders (no
         'value 0). The spec is attached to the formatter, a group, the active conditional group, and - for the empty '
         'text - the inactive one around a non-empty body. A fourth carrier is a group around the text as literal '
         'characters of the pattern. Exact cases for minimum, maximum and group widths at 2^16 - 1 .. 2^21 + 1. Every '
-        'eighth case of two carriers has an empty highlight group in front of the message inside the group.',
+        'eighth case of two carriers has an empty highlight group in front of the message inside the group. A '
+        "quarter of the exact cases wrap the spec'd item into a group with a spec of its own (minimum beyond the "
+        'inner text, maximum below it, both, a minimum larger than the inner maximum): the law applied twice.',
  'C11': 'The curated family includes alignment nested in alignment (re-entrant width writers); every fourth case '
         'encodes into a sink that accepts only a prefix per write call. FieldWidths.tla runs in the same check; the '
         'family has absurd widths on literal-only and nested groups. Placeholders stand for 2- and 3-byte '
         'representatives in turn. The family has the long names of the group formatters with 0 and 2 arguments. '
-        'Patterns with a highlight group are also encoded at every record level (no panic).',
+        'Patterns with a highlight group are also encoded at every record level (no panic). Seven patterns without '
+        "date and MDC are encoded from a thread-local guard's destructor while the thread ends.",
  'C12': 'Sinks accept everything, one byte, three bytes or 7/1/64 bytes per write call; every other record uses an '
         'encoder built from a configuration value; an earlier record of the same thread fails part-way into its '
         'sink. A style request from the JSON encoder is a violation; Fragments.tla runs in the same check; the '
         'two-byte class includes C1 controls. Records with fields of 255 .. 70001 characters are added beyond the '
         "model's length bound; sinks interrupt calls. In two of three cases a pattern encoder has rendered thread "
         "name, ids and context map on the thread before. Where the MDC is empty, every third record's message "
-        'inserts into it while it is rendered: one JSON object, the map as before or after.',
+        'inserts into it while it is rendered: one JSON object, the map as before or after. Every fifth record is '
+        "encoded by a guard's Drop while a caught panic unwinds its scope.",
  'C13': 'The declarations reach the builders one at a time, in bulk and in mixtures of both (appender()/appenders(), '
         'logger()/loggers(), and the same for references). Every other case renames the appender namespace onto the '
         'strings logger names are made of. Scale: 21 .. 300 loggers with one name declared three times (first '
@@ -394,7 +404,9 @@ EXTRA = {'C01': 'Each configuration additionally runs with failing appenders (no
         "reloader adopts after reading it. A time trigger's two-hour interval is spelled differently in each "
         'rendering (2 HOURS, 2 hourS, 7200, 2 Hours). Reference lists include a name given twice in a row (two '
         'deliveries per record). A path whose reference expands to the text of another reference (one pass, as for '
-        'the builders). A pattern key that is present and empty (not the default pattern).',
+        'the builders). A pattern key that is present and empty (not the default pattern). ConfigFile.tla has a '
+        'filter kind of the embedding program that accepts outright and the variants pass_then_thr / thr_then_pass '
+        '(the first filter with an opinion decides).',
  'C15': 'The refresh thread itself is covered impl->spec: scripted lifetimes of the real init_file thread (hook '
         'reloader.sleep) are validated as traces against Reloader.tla (Trace_Reloader.tla): every sleep lasts the '
         'rate of the last applied file. A directed scenario parks a logging thread inside Logger::enabled (hook '
@@ -406,8 +418,8 @@ EXTRA = {'C01': 'Each configuration additionally runs with failing appenders (no
         'refresh rate in use (45 ms): later edits must still be applied. In the YAML rendering, versions v and v + 2 '
         'differ in one line break at the end of the file (part of a keep-chomped block scalar). Every other child of '
         'the live scenarios runs with a standard error stream nobody reads. In every fourth live scenario the '
-        'modification times are the moment of the edit. ReloaderLive.tla has the loop at the grain of its system calls '
-        '(the editor acts between the stat and the read of a poll, and between the two looks of init_file): '
+        'modification times are the moment of the edit. ReloaderLive.tla has the loop at the grain of its system '
+        'calls (the editor acts between the stat and the read of a poll, and between the two looks of init_file): '
         'Converges / BadKeeps / LoopReturns are checked under weak fairness, with two negative controls (an editor '
         'that reproduces the remembered modification time; init_file reading before it takes the time - repair F17), '
         'and every behaviour of a bounded instance is replayed through init_file and the real refresh thread in a '
@@ -417,7 +429,8 @@ EXTRA = {'C01': 'Each configuration additionally runs with failing appenders (no
         'and at the 1000-year maxima (NextTimeBig); lifetimes of 300 arrivals sampled with TLC -simulate. Every DST '
         'zone gets a walk of arrivals through its repeated hour (six intervals, with and without modulation): each '
         'firing is compared with the scheduled instant read just before. In a third of the histories the roller '
-        'fails at the first firing; the arrivals that follow fire as the model says.',
+        'fails at the first firing; the arrivals that follow fire as the model says. Every arrival lies somewhere '
+        'inside its second (last nanosecond, last half millisecond, first nanosecond, middle).',
  'C17': 'The replay materialises every behaviour five times: 10-byte units with DeleteRoller, 400-byte units with a '
         'two-chunk encoder (straddling the 1 KiB BufWriter), 16-byte units with gzip archives and an appender built '
         'from a configuration value, 12-byte units with the index in a directory component of the archive pattern, '
@@ -448,7 +461,9 @@ EXTRA = {'C01': 'Each configuration additionally runs with failing appenders (no
         "seventh site puts the roller's index where the input has a digit (window of three; a variable set for one "
         'index only). The environment holds bystander variables whose value or name is not UTF-8. A variable whose '
         'name ends in a non-ASCII digit (U+0663). A value that starts with a slash and a bare slash token: expected '
-        "locations are the expanded text read as a path ('.', '..', doubled slashes).",
+        "locations are the expanded text read as a path ('.', '..', doubled slashes). Every other input also builds "
+        'a rolling appender with a one-byte limit and a one-slot window on the path and appends two records (the '
+        'roller is handed the expanded path).',
  'C20': 'Junk units include long ones (7..257 letters, a 2-, 3- or 4-byte letter at every place). Junk units with '
         'doubled plural endings and one letter too many. Every interval literal also builds the `time` trigger '
         '(accepted exactly between one unit and 1000 years, never a panic); junk units up to 257 letters. Every '
